@@ -1290,7 +1290,7 @@ def grammar_constraint_extension_files_arg(parser):
         "files",
         nargs="*",
         metavar="FILES",
-        type=argparse.FileType("r", encoding="UTF-8"),
+        type=argparse.FileType("r", encoding="UTF-8", errors="surrogateescape"),
         help="""
 Possibly multiple ISLa constraint (`*.isla`), BNF grammar (`*.bnf`) or Python
 extension (`*.py`) files. Multiple grammar files will be simply merged; multiple ISLa
@@ -1319,7 +1319,7 @@ def grammar_constraint_or_input_files_arg(parser):
         "files",
         nargs="*",
         metavar="FILES",
-        type=argparse.FileType("r", encoding="UTF-8"),
+        type=argparse.FileType("r", encoding="UTF-8", errors="surrogateescape"),
         help="""
 Possibly multiple ISLa constraint (`*.isla`), BNF grammar (`*.bnf`), Python
 extension (`*.py`) files, and/or input files to process (currently, only the `find`
